@@ -694,6 +694,12 @@ def run(repo, tier):
     if regs and regs[0]:
         guarded(check_register_text, rep, facts, regs[0], und)
     guarded(check_modifiers, rep, facts, und)
+
+    def literal_blind():
+        # a compression rule that asks how the operand is spelled treats `addi t0, a0, ZERO` unlike `addi t0, a0, 0`
+        from ..comprel import CompRel, check_literal_blind
+        check_literal_blind(rep, CompRel(facts), 'R11.6.literal-blind')
+    guarded(literal_blind)
     if und and not rep.findings:
         raise AnalysisError(und[0] + (' (+{} more)'.format(len(set(und)) - 1) if len(set(und)) > 1 else ''))
     rep.floor('Arithmetic.eval return paths', 2)
